@@ -5,6 +5,7 @@ cd "$(dirname "$0")"
 export CARGO_NET_OFFLINE=true
 mkdir -p .cache
 ( cd coq && ./gen_coqproject.sh && timeout 3000 make -j16 )
+sh harness/gen_modes.sh
 sh runner/build.sh
 ( cd /repo && RUSTFLAGS="--cfg zinoma_verif" CARGO_TARGET_DIR=/verif/.cache/target cargo build --offline )
 echo setup done
